@@ -117,20 +117,20 @@ def MI_T(**kw):
 MODULE_SPECS = {
     # name: (builder, probe kind, feature tag)
     "mlp/ln/L1-3": lambda: EvolvableMLP(4, 3, **MLP_T(max_hidden_layers=3, layer_norm=True)),
-    "mlp/plain/L1-2/start-at-min": lambda: EvolvableMLP(4, 3, **MLP_T(hidden_size=[16, 16], layer_norm=False)),
+    "mlp/plain/L1-2/off-grid-bounds": lambda: EvolvableMLP(4, 3, **MLP_T(hidden_size=[16, 16], layer_norm=False, min_mlp_nodes=12, max_mlp_nodes=72)),
     "mlp/noisy-outln": lambda: EvolvableMLP(4, 3, **MLP_T(noisy=True, output_layernorm=True, output_activation="Tanh")),
-    "cnn2d/k1/add-layer-feasible": lambda: EvolvableCNN([3, 12, 12], 5, **CNN_T(channel_size=[8], kernel_size=[1], stride_size=[1], layer_norm=False)),
+    "cnn2d/k1/add-layer-feasible/off-grid-bounds": lambda: EvolvableCNN([3, 12, 12], 5, **CNN_T(channel_size=[8], kernel_size=[1], stride_size=[1], layer_norm=False, min_channel_size=6, max_channel_size=20)),
     "cnn2d/bn/L2": lambda: EvolvableCNN([3, 12, 12], 5, **CNN_T()),
     "cnn2d/24px/stride2": lambda: EvolvableCNN([3, 24, 24], 5, **CNN_T(channel_size=[8], kernel_size=[2], stride_size=[2], layer_norm=False)),
     "cnn2d/tuple-kernels": lambda: EvolvableCNN([3, 12, 12], 5, **CNN_T(kernel_size=[(3, 3), (3, 3)], layer_norm=False)),
     "cnn3d/int-kernels": lambda: EvolvableCNN([3, 12, 12], 5, block_type="Conv3d", sample_input=torch.zeros(1, 3, 2, 12, 12), **CNN_T(layer_norm=True)),
     "cnn3d/tuple-kernels/depth-on-layer2": lambda: EvolvableCNN([3, 12, 12], 5, block_type="Conv3d", sample_input=torch.zeros(1, 3, 2, 12, 12), **CNN_T(kernel_size=[(1, 3, 3), (2, 3, 3)], layer_norm=False)),
     "lstm/L1-2": lambda: EvolvableLSTM(4, num_outputs=3, **LSTM_T()),
-    "lstm/L2/h32": lambda: EvolvableLSTM(4, num_outputs=3, **LSTM_T(hidden_size=32, num_layers=2)),
+    "lstm/L2/h32/off-grid-bounds": lambda: EvolvableLSTM(4, num_outputs=3, **LSTM_T(hidden_size=32, num_layers=2, min_hidden_size=12, max_hidden_size=56)),
     "simba/B1-2": lambda: EvolvableSimBa(4, 3, **SIMBA_T()),
-    "simba/B2/start-at-min": lambda: EvolvableSimBa(4, 3, **SIMBA_T(hidden_size=16, num_blocks=2)),
+    "simba/B2/off-grid-bounds": lambda: EvolvableSimBa(4, 3, **SIMBA_T(hidden_size=16, num_blocks=2, min_mlp_nodes=12, max_mlp_nodes=72)),
     "resnet/B1-2": lambda: EvolvableResNet([3, 12, 12], 5, **RESNET_T()),
-    "resnet/B2/c16": lambda: EvolvableResNet([3, 12, 12], 5, **RESNET_T(channel_size=16, num_blocks=2)),
+    "resnet/B2/c16/off-grid-bounds": lambda: EvolvableResNet([3, 12, 12], 5, **RESNET_T(channel_size=16, num_blocks=2, min_channel_size=12, max_channel_size=28)),
     "multiinput/dict": lambda: EvolvableMultiInput(_space("dict"), 5, **MI_T()),
     "multiinput/dict/vector-mlp": lambda: EvolvableMultiInput(_space("dict"), 5, **MI_T(vector_space_mlp=True)),
     "multiinput/tuple": lambda: EvolvableMultiInput(_space("tuple"), 5, **MI_T(cnn_config=CNN_T(layer_norm=False))),
@@ -1356,6 +1356,7 @@ class OracleC04:
 
 TIGHT = {
     "mlp": "hidden layers 1..2 (one bare MLP 1..3), nodes 16..64 in steps of 16 (menu 16/32/64)",
+    "off-grid variants": "one configuration per module class has bounds that no reachable size can land on exactly (e.g. nodes 12..72), so 'strictly inside must apply / outside must be refused' is decided on every edge",
     "cnn": "layers 1..2, channels 8..16 (menu 8/16/32), images 3x12x12 (one 3x24x24 stride-2 variant), Conv2d int/tuple kernels, Conv3d int/tuple kernels (depth 2)",
     "lstm": "layers 1..2, hidden 16..48", "simba": "blocks 1..2, hidden 16..64", "resnet": "blocks 1..2, channels 4..24",
     "latent": "8..40 from 16 (menu 8/16/32)",
@@ -1363,7 +1364,7 @@ TIGHT = {
 
 _QUICK_DEPTH = {"multiinput/dict": 3, "multiinput/tuple": 3, "multiinput/dict/vector-mlp": 2, "multiinput/dictseq/flattened/vector-mlp": 3,
                 "cnn2d/tuple-kernels": 1, "cnn3d/tuple-kernels/depth-on-layer2": 1}
-_THOROUGH_DEPTH = {"multiinput/dict/vector-mlp": 4, "cnn2d/tuple-kernels": 2, "cnn3d/tuple-kernels/depth-on-layer2": 2}
+_THOROUGH_DEPTH = {"multiinput/dict/vector-mlp": 3, "cnn2d/tuple-kernels": 2, "cnn3d/tuple-kernels/depth-on-layer2": 2}
 
 
 def _space_of(spec):
@@ -1385,17 +1386,22 @@ def plan(tier):
             continue
         if tier == "quick":
             # a Tuple space is converted to a Dict space in the constructor: the tuple variants differ in key names and
-            # in the observation container only, the quick tier takes one step from them (thorough: 3)
-            out.append({"spec": s, "level": -1, "max_depth": {"dict": 2, "image": 2, "tuple": 1}.get(sp, 3)})
+            # in the observation container only, the quick tier takes one step from them (thorough: 2)
+            d = {"dict": 2, "image": 2, "tuple": 1}.get(sp, 3)
+            if sp == "dict" and s.split("/")[0] in ("RainbowQNetwork", "ValueNetwork", "DeterministicActor"):
+                d = 1  # budget: the three structurally distinct heads (value / action-input / distribution) go to depth 2 on dict spaces
+            out.append({"spec": s, "level": -1, "max_depth": d})
         else:
-            out.append({"spec": s, "level": -1, "max_depth": {"dict": 3, "tuple": 3, "image": 4}.get(sp)})
+            out.append({"spec": s, "level": -1, "max_depth": {"dict": 3, "tuple": 2, "image": 4}.get(sp)})
     return out
 
 
 def cost(t):
     s = t["spec"]
     if s in NETWORK_SPECS:
-        return {"dict": 60.0, "tuple": 60.0 if (t.get("max_depth") or 9) > 1 else 3.0, "image": 30.0}.get(_space_of(s), 25.0)
+        if (t.get("max_depth") or 9) <= 1:
+            return 3.0
+        return {"dict": 60.0, "tuple": 60.0, "image": 30.0}.get(_space_of(s), 25.0)
     if s.startswith("multiinput"):
         return 30.0
     if s.startswith("cnn") or s.startswith("mlp/ln"):
